@@ -375,4 +375,44 @@ example : (resolveSupers [⟨(1, 1), [], [.nominal false 1 2 []]⟩, ⟨(1, 2), 
 example : (resolveSupers [⟨(1, 1), [], [.nominal false 1 2 []]⟩, ⟨(1, 2), [], []⟩]
     (.nominal false 1 1 [])).2 = (false, false) := by decide
 
+/-! ### Memoised variant (repair of C05-F6) -/
+
+/-- The flag is monotone for the memoised walk as well. -/
+theorem cyclic_flag_monotone_memo (tab : List Decl) : ∀ (fuel : Nat) (path : List (Nat × Nat)) (t : Ty)
+    (acc : SupAcc), acc.2.1 = true → (resolveSupersMF tab fuel path t acc).2.1 = true
+  | 0, _, _, acc, h => by simpa [resolveSupersMF] using h
+  | fuel + 1, path, t, acc, h => by
+    rw [resolveSupersMF]
+    split
+    · exact h
+    · split
+      · rfl
+      · split
+        · exact h
+        · apply fold_flag_mono _ _ _ _ h
+          intro a s ha
+          simp only
+          split
+          · exact ha
+          · exact cyclic_flag_monotone_memo tab fuel _ s a ha
+
+/-
+PENDING (stated, not proved): the memoised walk still reports every reachable cycle,
+
+  theorem cycle_detected_memo (tab) (n t path) : Returns tab n t path → ∀ fuel acc, n < fuel →
+      Explored tab acc → (resolveSupersMF tab fuel path t acc).2.1 = true
+
+where `Explored tab acc` says that every collected type was fully expanded (so a cycle through it
+was flagged when the first node of that cycle was entered). Until it is proved, cycle reporting of
+the memoised code is covered by the exact `sup` tie plus the independent graph oracle of
+`vlib/c06.py` (is_cyclic ⇔ a cycle of the declaration graph is reachable from the queried type).
+-/
+
+example : (resolveSupersM [⟨(1, 1), [], [.nominal false 1 2 [], .nominal false 1 2 []]⟩, ⟨(1, 2), [], []⟩]
+    (.nominal false 1 1 [])).1.length = 1 := by decide
+example : (resolveSupers [⟨(1, 1), [], [.nominal false 1 2 [], .nominal false 1 2 []]⟩, ⟨(1, 2), [], []⟩]
+    (.nominal false 1 1 [])).1.length = 2 := by decide
+example : (resolveSupersM [⟨(1, 1), [], [.nominal false 1 2 []]⟩, ⟨(1, 2), [], [.nominal false 1 1 []]⟩]
+    (.nominal false 1 1 [])).2.1 = true := by decide
+
 end SamVerif.Gates
